@@ -18,6 +18,7 @@ struct MArr {
 	int              arena = 0;
 	bool             dirty = false;  // target of a failed operation: valid but unspecified
 	bool             moved_from = false;  // emptied by a move and not yet given a new value
+	bool             exact_empty = false;  // an empty array whose reported extents are specified: leading extent 0, all others as requested (>= 1)
 	long count() const {
 		long c = 1;
 		for(int i = 0; i < D; ++i) c *= n[i];
